@@ -239,7 +239,13 @@ def r_backward(c):
             kw = {}
             if c.get("inputs") is not None:
                 kw["inputs"] = as_container([prog[n] for n in c["inputs"]], c.get("container"))
-            backward([prog[n] for n in outs], agg, parallel_chunk_size=c.get("chunk"), retain_graph=bool(c.get("retain_graph", False)), **kw)
+            ts = [prog[n] for n in outs]
+            form = c.get("tensors_form", "list")
+            try:
+                backward(ts[0] if (form == "tensor" and len(ts) == 1) else (tuple(ts) if form == "tuple" else ts), agg, parallel_chunk_size=c.get("chunk"),
+                         retain_graph=bool(c.get("retain_graph", False)), **kw)
+            except Exception as e:  # noqa
+                return dict(reproduced=True, why=[f"a valid call raised {type(e).__name__}: {e}"], tensors_form=form)
             after = grads(prog, leaf_names)
             ins = c["inputs"] if c.get("inputs") is not None else c.get("expected_inputs", [])
             probs = check_backward_effect(prog, list(outs), ins, agg, before, after, leaf_names)
@@ -329,6 +335,8 @@ def check_mtl_effect(prog, c, agg, before, after, leaf_names):
         b = before[n] if before[n] is not None else 0.0
         if after[n] is None or not close(after[n], b + exp.reshape(tuple(prog[n].shape))):
             probs.append(f"task parameter {n}: increment is not the sum of its tasks' gradients")
+    if not shared:
+        return probs + ([f"aggregator called {len(agg.seen)} times although there is no shared parameter"] if agg.seen else [])
     if len(agg.seen) != 1:
         return probs + [f"aggregator called {len(agg.seen)} times"]
     M = agg.seen[0]
@@ -424,7 +432,9 @@ def _cmp_grads(prog, twin, names):
 def r_vs_autograd(c):
     from torchjd.autojac import backward
     spec = c["spec"]
-    prog, twin = RealProg(spec, c["jac"]), RealProg(spec, c["jac"])
+    # non-dyadic local Jacobians: faults that only lose precision (a detour through float32) are invisible on the solver's small dyadic witnesses
+    jacg = {k: (np.asarray(arr(v), dtype=float) * 1.1234567891 + 0.0123456789).tolist() for k, v in c["jac"].items()} if c.get("dtype") == "float64" else c["jac"]
+    prog, twin = RealProg(spec, jacg), RealProg(spec, jacg)
     set_old(prog, c.get("old"))
     set_old(twin, c.get("old"))
     outs, ins = c["outputs"], c["inputs"]
